@@ -295,6 +295,7 @@ class Check:
         if bad:
             self.violation("forbidden-construct", {"kind": "forbidden"}, {"lines": bad}, no_input=True)
             return False
+        coq_make()   # whole project, keep-going: helper libraries used only by generated case files must be built too
         r = check_property_file(self.pid)
         self.theorems = r["theorems"]
         self.obligations = len(r["theorems"])
@@ -349,6 +350,9 @@ class Check:
         }
         if self.discharged < self.obligations or self.obligations == 0:
             ev["coverage"]["discharged"] = self.discharged
-        json.dump(ev, open(os.path.join(ROOT, "evidence", self.pid + ".json"), "w"), indent=1, default=str)
+        evdir = os.path.join(ROOT, "evidence")
+        if os.path.realpath(REPO) != "/repo":   # runs against a scratch copy (seeded defects, mutations) must not overwrite the evidence
+            evdir = os.path.join(WORK, "evidence_scratch"); os.makedirs(evdir, exist_ok=True)
+        json.dump(ev, open(os.path.join(evdir, self.pid + ".json"), "w"), indent=1, default=str)
         print("[%s] %s tier=%s seed=%d cases=%d wall=%.1fs" % (self.pid, "FAIL" if rc else "ok", self.tier, self.seed, self.cases, wall), flush=True)
         return rc
